@@ -125,11 +125,11 @@ def impl_abstract(R):
         if f is not None and (c is not object or f is not R.base_registry.get(object)):
             fn = f.args[0] if hasattr(f, 'args') and f.args else f
             direct[c.__name__] = getattr(fn, 'tag', '?')
-        g = pp._DEFERRED_DISPATCH_BY_NAME.get(DEFKEY[c])
+        g = R.deferred().get(DEFKEY[c])
         if g is not None:
             deferred[c.__name__] = getattr(g, 'tag', '?')
     preds = []
-    for (pred, fn) in pp._PREDICATE_REGISTRY[len(R.base_pred):]:
+    for (pred, fn) in R.predicates()[len(R.base_pred):]:
         idx = [i for i, (_, p) in enumerate(PREDS) if p is pred]
         preds.append((idx[0] if idx else '?', getattr(fn, 'tag', '?')))
     return direct, deferred, preds
